@@ -335,3 +335,41 @@ Definition target (o : op) : option nat :=
   | OPush c _ | OPop c | OPushAt c _ _ | OPopAt c _ | OSet c _ _ | ORem c _ | OConcat c _
   | OResize c _ | OSort c | OAssign c _ | ODel c | OMSet c _ _ | OMRem c _ => Some c
   end.
+
+(* ---------------------------------------------------------------- signed indices
+   The C functions take an int64 index and normalise a negative one against the current length:
+   Array/List get, set, pop_at: i < 0 ? n + i : i;  Array_Push_At: i < 0 ? (n+1) + i : i;  List_Push_At locates
+   the node to insert before with List_At (n + i).  An index that is still negative afterwards is refused like one
+   that is too large.  [resolve] turns an operation with a signed index into the plain operation it is on the
+   container as it stands (a refused index becomes one the plain operation refuses as well), so every run with
+   signed indices IS a run of plain operations (OwnershipProofs.srun_is_run) and all theorems carry over. *)
+Inductive sop : Type :=
+| SOp (o : op)
+| SPushAt (c : nat) (i v : Z)
+| SPopAt (c : nat) (i : Z)
+| SSet (c : nat) (i v : Z).
+
+Definition norm_index (n : nat) (i : Z) : nat :=
+  if (i <? 0)%Z then (if (Z.of_nat n + i <? 0)%Z then S n else Z.to_nat (Z.of_nat n + i))
+  else if (Z.of_nat (S n) <? i)%Z then S n       (* far beyond the end: refused by every operation; no huge unary number *)
+  else Z.to_nat i.
+
+Definition seq_shape (w : world) (c : nat) : option (kind * nat) :=
+  match getc w c with Some (CSeq k l) => Some (k, length l) | _ => None end.
+
+Definition resolve (w : world) (s : sop) : op :=
+  match s with
+  | SOp o => o
+  | SPushAt c i v =>
+      match seq_shape w c with
+      | Some (KList, n) => OPushAt c (norm_index n i) v
+      | Some (_, n) => OPushAt c (norm_index (S n) i) v
+      | None => OPushAt c 0 v
+      end
+  | SPopAt c i => match seq_shape w c with Some (_, n) => OPopAt c (norm_index n i) | None => OPopAt c 0 end
+  | SSet c i v => match seq_shape w c with Some (_, n) => OSet c (norm_index n i) v | None => OSet c 0 v end
+  end.
+
+Definition sstep (w : world) (s : sop) : world := step w (resolve w s).
+Definition srun (ss : list sop) : world := fold_left sstep ss w_init.
+
